@@ -7,7 +7,7 @@ Request:
   {"op":"build","names":[..],"out":[output,filename,prefix,suffix,dirname,fileext slots],"tree":T,"flow":[ctx|null (bare data),..]|null,
    "src":[ctx,..],"redeliver":[ctx,..] (optional)}
   T ::= {"k":"seq","kind":"Sequence"|"Source","c":[T..]} | {"k":"split","c":[T..]}
-      | {"k":"set","key":[slots],"val":leaf|null,"tpl":TPL|null} | {"k":"store"|"ucfs"|"data"|"src"}
+      | {"k":"set","key":[slots],"val":leaf|ctx (a dictionary constant)|null,"tpl":TPL|null} | {"k":"store"|"ucfs"|"data"|"src"}
       | {"k":"mut","key":[slots],"val":leaf}
       | {"k":"write"|"cache","tpl":TPL}
       | {"k":"mkf","methods":[["prefix"|"suffix"|"filename"|"dirname"|"fileext",TPL],..],"overwrite":bool}
@@ -79,26 +79,32 @@ def toLeaf (j : Json) : Option Leaf :=
   | .str s => some (.str s)
   | _ => (int? j).map Leaf.int
 
-partial def toTree (j : Json) : Option Tree := do
+partial def toTree (names : Array String) (j : Json) : Option Tree := do
   let k ← str? (getD j "k")
   match k with
   | "seq" =>
-    let cs ← (← arr? (getD j "c")).toList.mapM toTree
+    let cs ← (← arr? (getD j "c")).toList.mapM (toTree names)
     let kind ← match str? (getD j "kind") with
       | some "Sequence" => some Kind.sequence
       | some "Source" => some Kind.source
       | _ => none
     pure (.seq kind cs)
   | "split" =>
-    let cs ← (← arr? (getD j "c")).toList.mapM toTree
+    let cs ← (← arr? (getD j "c")).toList.mapM (toTree names)
     pure (.split cs)
   | "set" =>
     match ← natList? (getD j "key") with
     | [] => none
     | k0 :: ks =>
-      if (getD j "tpl").isNull then do
-        let l ← toLeaf (getD j "val")
-        pure (.leaf (.set k0 ks (.const l)))
+      if (getD j "tpl").isNull then
+        match getD j "val" with
+        | .obj o => do
+          -- a dictionary constant: `SetContext("k", {...})`
+          let d ← toCtx names (.obj o)
+          pure (.leaf (.set k0 ks (.dictv d)))
+        | v => do
+          let l ← toLeaf v
+          pure (.leaf (.set k0 ks (.const l)))
       else do
         let t ← toTpl (getD j "tpl")
         pure (.leaf (.set k0 ks (.tpl t)))
@@ -208,7 +214,8 @@ def handle (j : Json) : Json :=
   match str? (getD j "op") with
   | some "build" =>
     match (arr? (getD j "names")).bind (fun a => a.toList.mapM str?), natList? (getD j "out"),
-        toTree (getD j "tree") with
+        ((arr? (getD j "names")).bind (fun a => a.toList.mapM str?)).bind
+          (fun nl => toTree nl.toArray (getD j "tree")) with
     | some nl, some [o, f, p, s, dn, fe], some t =>
       let names := nl.toArray
       let n := names.size
@@ -266,6 +273,7 @@ def handle (j : Json) : Json :=
                   ("cones", ofList (coneJson t) paths),
                   ("toks", ofList (tokJson t) paths),
                   ("no_bad", Json.bool st.noBad),
+                  ("vals_wf", Json.bool (t.valsWF n)),
                   ("redelivered", redelivered),
                   ("fold", resJson names (fold n t (Val.empty n))), ("out", out)]
     | _, _, _ => err "bad build args"
